@@ -23,6 +23,8 @@ Oracle, only for cases whose injection actually happened (statement of C09, rele
   not_delivered  the top subscriber's terminal notification is E ... / wrong_exception ... carrying that very object;
   continued      after that E: no call of any callback probe, no further notification to the top subscriber, no new source
                  subscription, no further pull from the iterable; N*(E|C)? at every probe observer (windows/groups too);
+  window_left_open  every window/group observable the failing operator had handed to the subscriber has received a terminal
+                 by the time E reaches the subscriber (the operator fails its open windows before its subscriber);
   not_released   every source subscription (main, secondary, inner, duration) has an unsub event at a virtual time <= the
                  time of that E.  As in C02 the windows/groups handed to the subscriber that are still open are
                  unsubscribed by the harness first (same instant, scheduled from inside the E delivery).
@@ -59,7 +61,7 @@ ASSUMPTIONS = ["reactivex.testing.TestScheduler is used as the clock (its orderi
 SUB_AT = 200.0
 KINDS = ["hot", "subject", "cold", "iter"]
 VARIANTS = {"quick": 2, "thorough": 48}
-SYMPTOMS = ["escaped", "escaped_sched", "not_delivered", "wrong_exception", "continued", "not_released", "foreign_escape"]
+SYMPTOMS = ["escaped", "escaped_sched", "not_delivered", "wrong_exception", "continued", "not_released", "window_left_open", "foreign_escape"]
 
 
 # ---------------------------------------------------------------------------------- harness sources
@@ -636,6 +638,10 @@ def run_case(seed: int, idx: int, res: UnitResult) -> None:
                 found.append(("not_released", "subscription %s#%s released at t=%g, later than E at t=%g" % (name, sid, unsub[1], t_err)))
         res.count("subscriptions_judged_for_release", nsubs)
         res.count("open_windows_or_groups_unsubscribed_by_harness", state["cleaned"])
+        if state["cleaned"]:
+            # the operator whose callback failed hands out windows/groups: it ends them with the failure before (or when) it
+            # fails its subscriber - a window left open never terminates and keeps the sources subscribed through its reference
+            found.append(("window_left_open", "%d window/group observable(s) handed to the subscriber had received no terminal when E reached it" % state["cleaned"]))
 
     res.case(key={"slot": slot.id, "k": k, "kind": kind, "variant": case["variant"]}, nontrivial=True,
              sample={"case": desc, "injected_at_t": lab.ev[inj_seq][1], "top": [[r_[2], r_[0], show(r_[1])] for r_ in top.recv[-4:]],
